@@ -197,3 +197,6 @@ def finalize(cov, tier):
     cov.setdefault('states', 0)
     cov.setdefault('transitions', 0)
     cov.setdefault('traces_validated_against_impl', 0)
+    cov['backends'] = lin.backends()
+    cov['explanation'] = ('every request is executed on the real nutils objects; evaluations = requests judged, transitions = solves executed (incl. the internal solves of '
+                          'time steps), traces_validated_against_impl = requests / step sequences whose complete outcome satisfied the oracle')
